@@ -59,6 +59,10 @@ type Scenario struct {
 	IsOpen bool
 	// Quick: part of the quick tier's operation subset.
 	Quick bool
+	// SingleDeadline: the operation is ONE exchange governed by one deadline from its start
+	// (send-input, interactive send, NETCONF rpc) - as opposed to composites whose steps each get
+	// the full timeout (send-commands, privilege changes, callback sends: per read loop).
+	SingleDeadline bool
 }
 
 // Close closes whatever driver the session has, bounded, swallowing panics (used by properties
@@ -304,7 +308,7 @@ type ncCall func(d *netconf.Driver, opts ...util.Option) (string, bool, error)
 
 func ncScenario(name, version string, echo bool, quick bool, call ncCall, perOp bool) *Scenario {
 	return &Scenario{
-		Name: name, Driver: "netconf", Quick: quick, PerOp: perOp,
+		Name: name, Driver: "netconf", Quick: quick, PerOp: perOp, SingleDeadline: true,
 		New: newNetconf(version, echo),
 		Pre: openNC,
 		Op: func(s *Session, opts ...util.Option) (string, error) {
@@ -319,10 +323,14 @@ func ncScenario(name, version string, echo bool, quick bool, call ncCall, perOp 
 			if err != nil {
 				return "", err
 			}
-			// the follow-up must carry its own message-id
-			return fmt.Sprintf("own-id=%v", strings.Contains(r.Result, fmt.Sprintf(`message-id="%d"`, idOf(r.Input)))), nil
+			// the follow-up must carry its own message-id and be the reply the server produced for the
+			// follow-up request (the newest nonce), not a stale reply of an earlier request
+			var newest int
+			s.Conn.Do(func() { newest = s.nonce })
+			return fmt.Sprintf("own-id=%v newest-reply=%v", strings.Contains(r.Result, fmt.Sprintf(`message-id="%d"`, idOf(r.Input))),
+				strings.Contains(r.Result, fmt.Sprintf("<nonce>n%d</nonce>", newest))), nil
 		},
-		LaterWant: "own-id=true",
+		LaterWant: "own-id=true newest-reply=true",
 	}
 }
 
@@ -357,7 +365,7 @@ func All() []*Scenario {
 		lf, lw := laterG("show later~", promptPriv)
 		l = append(l, &Scenario{Name: "g.getprompt", Driver: "generic", Quick: true, New: newGeneric("privilege-exec"), Pre: openG,
 			Op: func(s *Session, _ ...util.Option) (string, error) { return s.G.GetPrompt() }, Later: lf, LaterWant: lw})
-		l = append(l, &Scenario{Name: "g.sendcommand", Driver: "generic", Quick: true, PerOp: true, New: newGeneric("privilege-exec"), Pre: openG,
+		l = append(l, &Scenario{Name: "g.sendcommand", Driver: "generic", Quick: true, PerOp: true, SingleDeadline: true, New: newGeneric("privilege-exec"), Pre: openG,
 			Op: func(s *Session, o ...util.Option) (string, error) {
 				r, err := s.G.SendCommand("show version!", o...)
 				if err != nil {
@@ -373,7 +381,7 @@ func All() []*Scenario {
 				}
 				return m.JoinedResult(), nil
 			}, Later: lf, LaterWant: lw})
-		l = append(l, &Scenario{Name: "g.interactive", Driver: "generic", Quick: true, PerOp: true, New: newGeneric("privilege-exec"), Pre: openG,
+		l = append(l, &Scenario{Name: "g.interactive", Driver: "generic", Quick: true, PerOp: true, SingleDeadline: true, New: newGeneric("privilege-exec"), Pre: openG,
 			Op: func(s *Session, o ...util.Option) (string, error) {
 				r, err := s.G.SendInteractive([]*channel.SendInteractiveEvent{
 					{ChannelInput: "clear counters", ChannelResponse: `\[confirm\]`},
@@ -384,7 +392,7 @@ func All() []*Scenario {
 				}
 				return r.Result, nil
 			}, Later: lf, LaterWant: lw})
-		l = append(l, &Scenario{Name: "g.interactive-hidden", Driver: "generic", PerOp: true, New: newGeneric("privilege-exec"), Pre: openG,
+		l = append(l, &Scenario{Name: "g.interactive-hidden", Driver: "generic", Quick: true, PerOp: true, SingleDeadline: true, New: newGeneric("privilege-exec"), Pre: openG,
 			Op: func(s *Session, o ...util.Option) (string, error) {
 				r, err := s.G.SendInteractive([]*channel.SendInteractiveEvent{
 					{ChannelInput: "set password", ChannelResponse: `New password:`},
